@@ -7,7 +7,7 @@ from ..core import Workload
 from ..env import ptn
 
 KINDS = ['real', 'complex', 'symmetric', 'zero-padded', 'single-entry', 'hermitian', 'integer-valued', 'mixed-magnitude', 'lower-triangular-storage',
-         'antisym-ij', 'antisym-kl', 'antisym-both', 'sym-ij', 'product-antisym', 'fully-symmetric', 'unit-entries']
+         'antisym-ij', 'antisym-kl', 'antisym-both', 'sym-ij', 'product-antisym', 'fully-symmetric', 'unit-entries', 'near-equal-entries']
 
 
 def coeffs(rng, L, kind):
@@ -56,6 +56,13 @@ def coeffs(rng, L, kind):
         return t, v
     if kind == 'integer-valued':
         return rng.integers(-2, 3, size=(L, L)), rng.integers(-2, 3, size=(L, L, L, L))
+    if kind == 'near-equal-entries':
+        # entries agreeing with each other to 6..12 digits (up to sign) without being equal
+        cb = float(rng.uniform(0.3, 2.0))
+        eps = [0, 1e-12, -1e-9, 1e-7, 1e-6, -3e-6, 3e-6, 8e-6]
+        t = cb * rng.choice([-1, 1], size=(L, L)) * (1 + rng.choice(eps, size=(L, L)))
+        v = cb * rng.choice([-1, 1], size=(L, L, L, L)) * (1 + rng.choice(eps, size=(L, L, L, L)))
+        return t, v
     if kind == 'unit-entries':
         # generic coefficients with a few entries exactly 1.0 / -1.0 / 0.5 (values internal code may use as sentinels)
         t, v = c(L, L), c(L, L, L, L)
